@@ -21,6 +21,9 @@ MODELS = (("JC69", 0, "constant"), ("HKY", 0, "invariant"), ("GTR", 1, "weibull4
 # generic data: 8 columns with ambiguity codes / gaps; row i belongs to taxon t<i>
 DATA = ["ACGTRN-A", "CCGTAYGA", "ATGAR-TC", "GCTTACNG", "TAG-CCGT", "ACTNGRAA"]
 COLS5 = ["ACGTA", "CAGTN", "ATRAC", "GC-TG", "TAGCC", "AYTNG"]
+# "twin" columns: columns 0-3 agree on every unambiguous tip and differ only in the symbol of t2
+# (G / R / N / -): identical under the missing-data reading of a code, different under the union reading
+COLS5B = ["AAAAC", "CCCCA", "GRN-G", "TTTTT", "AAAAG", "CCCCY"]
 
 
 def lengths(top, seed):
@@ -56,12 +59,13 @@ def ultrametric(top, ages, seed):
     return {c: hh[p] - hh[c] for c, p in en.parent_map(top).items()}
 
 
-def spec(top, taxa_order, seq_order, model, tree_kind, tips, bl, data, ages=None):
+def spec(top, taxa_order, seq_order, model, tree_kind, tips, bl, data, ages=None, newick=None):
     subst, pidx, site = model
     sspec, _ = lb.subst_spec(subst, lb.SUBST_POINTS[subst][pidx])
     n = len(taxa_order)
     if tree_kind == "unrooted":
-        tspec = tb.unrooted_tree(top, taxa_order, [0.1] * (2 * n - 3), newick=nwk(top, bl), keep=True)
+        tspec = tb.unrooted_tree(top, taxa_order, [0.1] * (2 * n - 3),
+                                 newick=newick if newick is not None else nwk(top, bl), keep=True)
         clock = None
     else:
         dates = [ages[l] for l in taxa_order]
@@ -127,7 +131,106 @@ def rerootings(top, bl):
     return out
 
 
+POLYTOMIES = {
+    4: [(("t0", "t1", "t2"), "t3")],
+    5: [(("t0", "t1", "t2"), ("t3", "t4")), (("t0", "t1", "t2", "t3"), "t4"), ((("t0", "t1", "t2"), "t3"), "t4"),
+        (("t0", ("t1", "t2", "t3")), "t4")],
+}
+
+
+def _leaves(x):
+    return [x] if not isinstance(x, tuple) else [l for c in x for l in _leaves(c)]
+
+
+def _nwk_multi(t, bl):
+    """Newick of a tree whose nodes may have more than two children; bl: clade -> length"""
+    def rec(x):
+        s = "(" + ",".join(rec(c) for c in x) + ")" if isinstance(x, tuple) else str(x)
+        c = frozenset(_leaves(x))
+        return s + (":" + repr(bl[c]) if c in bl else "")
+    return rec(t) + ";"
+
+
+def _variants(t):
+    """(kind, tree, extra zero-length clades): every order of the children of every multifurcating
+    node, and every resolution of one multifurcation into a ladder of zero-length branches"""
+    out = []
+
+    def rebuild(x, target, repl):
+        if x is target:
+            return repl
+        if isinstance(x, tuple):
+            return tuple(rebuild(c, target, repl) for c in x)
+        return x
+
+    def nodes(x):
+        if isinstance(x, tuple):
+            yield x
+            for c in x:
+                yield from nodes(c)
+
+    for nd in nodes(t):
+        if len(nd) > 2:
+            for perm in itertools.permutations(nd):
+                out.append(("children_order", rebuild(t, nd, tuple(perm)), []))
+                lad, zero = perm[-1], []
+                for c in reversed(perm[1:-1]):
+                    lad = (c, lad)
+                    zero.append(frozenset(_leaves(lad)))
+                out.append(("polytomy_resolution", rebuild(t, nd, (perm[0], lad)), zero))
+    return out
+
+
+def check_polytomy(item):
+    """a node with more than two children: every order of its children and every resolution into
+    zero-length branches is the same tree"""
+    n, seed = item["n"], item["seed"]
+    t = POLYTOMIES[n][item["top"]]
+    labels = [f"t{i}" for i in range(n)]
+    data = {l: DATA[i] for i, l in enumerate(labels)}
+    bl = {}
+
+    def assign(x, depth=0):
+        c = frozenset(_leaves(x))
+        if len(c) < n:
+            bl[c] = 0.05 + 0.041 * len(bl) + 0.013 * (seed % 7)
+        if isinstance(x, tuple):
+            for ch in x:
+                assign(ch)
+
+    assign(t)
+    bad, nev = [], 0
+    for model in MODELS:
+        for tips in ("missing", "states", "union"):
+            def val(tree, zero):
+                b = dict(bl)
+                for z in zero:
+                    b[z] = 0.0
+                sp = spec(None, labels, labels, model, "unrooted", tips, None, data, newick=_nwk_multi(tree, b))
+                return value(sp)
+            try:
+                ref = val(t, [])
+                nev += 1
+            except Exception as e:
+                bad.append(("polytomy", f"{_nwk_multi(t, bl)}: {type(e).__name__}: {str(e)[:150]}"))
+                continue
+            for kind, tree, zero in _variants(t):
+                nev += 1
+                try:
+                    v = val(tree, zero)
+                except Exception as e:
+                    bad.append((kind, f"{model[0]}/{tips} {_nwk_multi(tree, bl)}: {type(e).__name__}: {str(e)[:120]}"))
+                    return bad, nev
+                if not abs(v - ref) <= RTOL * max(1.0, abs(ref)):
+                    bad.append((kind, f"{model[0]}/{tips}: {_nwk_multi(tree, dict(bl, **{z: 0.0 for z in zero}))} gives "
+                                      f"{v!r}, {_nwk_multi(t, bl)} gives {ref!r}"))
+                    return bad, nev
+    return bad, nev
+
+
 def check_item(item):
+    if item["part"] == "polytomy":
+        return check_polytomy(item)
     n, ti, seed, part = item["n"], item["top"], item["seed"], item["part"]
     labels = [f"t{i}" for i in range(n)]
     top = en.rooted_topologies(labels)[ti]
@@ -197,34 +300,38 @@ def check_item(item):
                             return bad, nev
         if part == "columns":
             bl = lengths(top, seed)
-            cdata = {l: COLS5[i] for i, l in enumerate(labels)}
-            for tips in ("missing", "states", "union"):
-                try:
-                    ref = value(spec(top, labels, labels, model, "unrooted", tips, bl, cdata))
-                    single = []
-                    for j in range(5):
-                        single.append(value(spec(top, labels, labels, model, "unrooted", tips, bl,
-                                                 {l: cdata[l][j] for l in labels})))
-                    nev += 6
-                except Exception as e:
-                    bad.append(("columns", f"{type(e).__name__}: {str(e)[:150]}"))
-                    continue
-                if not abs(sum(single) - ref) <= RTOL * max(1.0, abs(ref)):
-                    bad.append(("column_sum", f"{model[0]}/{tips}: sum of single-column values {sum(single)!r} vs {ref!r}"))
-                for perm in itertools.permutations(range(5)):
-                    d = {l: "".join(cdata[l][j] for j in perm) for l in labels}
-                    compare(ref, spec(top, labels, labels, model, "unrooted", tips, bl, d),
-                            f"{model[0]}/{tips} column order {perm}", "column_order")
-                    if bad:
-                        return bad, nev
-                for mult in itertools.product((1, 2, 3), repeat=5):
-                    order = [j for m in (1, 2, 3) for j in range(5) if mult[j] >= m]
-                    d = {l: "".join(cdata[l][j] for j in order) for l in labels}
-                    exp = sum(m * s for m, s in zip(mult, single))
-                    compare(exp, spec(top, labels, labels, model, "unrooted", tips, bl, d),
-                            f"{model[0]}/{tips} column multiplicities {mult}", "column_duplication")
-                    if bad:
-                        return bad, nev
+            for cname, cols in (("generic", COLS5), ("twins", COLS5B)):
+                cdata = {l: cols[i] for i, l in enumerate(labels)}
+                for tips in ("missing", "states", "union"):
+                    try:
+                        ref = value(spec(top, labels, labels, model, "unrooted", tips, bl, cdata))
+                        single = []
+                        for j in range(5):
+                            single.append(value(spec(top, labels, labels, model, "unrooted", tips, bl,
+                                                     {l: cdata[l][j] for l in labels})))
+                        nev += 6
+                    except Exception as e:
+                        bad.append(("columns", f"{type(e).__name__}: {str(e)[:150]}"))
+                        continue
+                    if not abs(sum(single) - ref) <= RTOL * max(1.0, abs(ref)):
+                        bad.append(("column_sum", f"{model[0]}/{tips}/{cname}: sum of single-column values "
+                                                  f"{sum(single)!r} vs {ref!r}"))
+                    for perm in itertools.permutations(range(5)):
+                        d = {l: "".join(cdata[l][j] for j in perm) for l in labels}
+                        compare(ref, spec(top, labels, labels, model, "unrooted", tips, bl, d),
+                                f"{model[0]}/{tips}/{cname} column order {perm}", "column_order")
+                        if bad:
+                            return bad, nev
+                    if cname != "generic":
+                        continue
+                    for mult in itertools.product((1, 2, 3), repeat=5):
+                        order = [j for m in (1, 2, 3) for j in range(5) if mult[j] >= m]
+                        d = {l: "".join(cdata[l][j] for j in order) for l in labels}
+                        exp = sum(m * s for m, s in zip(mult, single))
+                        compare(exp, spec(top, labels, labels, model, "unrooted", tips, bl, d),
+                                f"{model[0]}/{tips} column multiplicities {mult}", "column_duplication")
+                        if bad:
+                            return bad, nev
     return bad, nev
 
 
@@ -242,6 +349,9 @@ def items(tier, seed):
                 if tier == "quick" and n == 5 and part in ("taxa_seq", "children"):
                     it["lean"] = True
                 out.append(it)
+    for n, trees in POLYTOMIES.items():
+        for k in range(len(trees)):
+            out.append({"n": n, "top": k, "seed": seed, "part": "polytomy"})
     return out
 
 
